@@ -133,6 +133,10 @@ def invoke(fn, names_, args, environment, pos):
     try:
         return fn.execute(args_, environment, pos)
     except CklRuntimeError as e:
+        if e.pos is None:
+            # raised by a conversion that knows no position: the error
+            # belongs to this call
+            e.pos = pos
         e.stacktrace.append(getFuncallString(fn, args_) + " " + str(pos))
         raise
     except CklSyntaxError:
